@@ -312,7 +312,7 @@ def run(ctx):
     st = ctx.stats
     cases = corpus_cases("C02", STREAM) + list(gen_cases(ctx))
     outs = ctx.driver.eval([model_line(c) for c in cases])
-    mism = []
+    mism, per_op = [], {}
     for case, line in zip(cases, outs):
         st.count(f"{STREAM}:{case['op']}")
         got = observe(case)
@@ -322,8 +322,8 @@ def run(ctx):
         st.case((STREAM, repr(case)), nt)
         st.validated += 1
         if not same(got, model):
-            mism.append({"case": case, "impl": got, "model": model,
-                         "what": f"Engine.{case['op']}: implementation {got}, model {model}"})
-            if len(mism) > 8:
-                break
+            per_op[case["op"]] = per_op.get(case["op"], 0) + 1
+            if per_op[case["op"]] <= 2:          # a defect of one accessor must not hide the others
+                mism.append({"case": case, "impl": got, "model": model,
+                             "what": f"Engine.{case['op']}: implementation {got}, model {model}"})
     return mism
